@@ -30,6 +30,16 @@ def type_max(ty):
     return (1 << b) - 1
 
 
+def _walk(t, depth=0):
+    if not isinstance(t, tuple) or depth > 30:
+        return
+    yield t
+    for x in t:
+        if isinstance(x, tuple):
+            for y in _walk(x, depth + 1):
+                yield y
+
+
 def upper_bound(tree, f=None, depth=0):
     """A4-style sound upper bound of an unsigned integer tree, or None"""
     if depth > 30:
@@ -103,11 +113,19 @@ def upper_bound(tree, f=None, depth=0):
         if base in ("Eq", "Ne", "Lt", "Le", "Gt", "Ge"):
             return 1
         return tm
+    if k == "f" and tree[1][0] == "dc" and tree[1][2] == "Some" and tree[2] in ("0", 0):
+        return upper_bound(tree[1][1], f, depth + 1)       # the payload of an Option: bounded like the call that made it
     if k == "call":
         short = tree[1].rsplit("::", 1)[-1]
         if tree[1].startswith("core::num::") and short in ("trailing_zeros", "leading_zeros", "count_ones", "count_zeros"):
             ty = tree[1].split("<")[1].split(">")[0] if "<" in tree[1] else None
             return INT_BITS.get(ty)
+        if short == "position" and "Iterator" in tree[1] and tree[2]:
+            # index of an element of a slice iterator: below the slice's length when that is a constant
+            for x in _walk(tree[2][0]):
+                if x and x[0] == "c" and len(x) > 1 and isinstance(x[1], tuple) and not (x[1] and x[1][0] == "json") and len(x[1]) > 0:
+                    return len(x[1]) - 1
+            return None
         if short == "min" and tree[1].startswith("core::cmp"):
             c = [upper_bound(a, f, depth + 1) for a in tree[2]]
             c = [x for x in c if x is not None]
@@ -210,6 +228,27 @@ class Site:
         return "%s|%s|%s|#%d" % (self.fn, self.kind, self.detail, self.ordinal)
 
 
+_PROG_FOR_PROMOTED = [None]
+
+
+def _resolve_initials(ex, tree, depth=0):
+    """a local that is only ever initialised once and then borrowed mutably (an iterator) by its initial value;
+    promoted constants by their value"""
+    from .expr import subst, resolve_promoted
+    if depth > 4:
+        return tree
+    m = {}
+    for x in _walk(tree):
+        if x and x[0] == "local" and len(x) == 2 and isinstance(x[1], int):
+            i = ex.initial(x[1])
+            if i != x:
+                m[x] = i
+    out = subst(tree, m) if m else tree
+    if _PROG_FOR_PROMOTED[0] is not None:
+        out = resolve_promoted(_PROG_FOR_PROMOTED[0], out)
+    return _resolve_initials(ex, out, depth + 1) if m else out
+
+
 def sites_of(f, exact, prefix):
     """all panic sites of one function in block order"""
     cfg = Cfg(f)
@@ -249,7 +288,7 @@ def sites_of(f, exact, prefix):
                         s.auto = g
                 s.info = "index %s, len %s" % (show(idx), show(ln))
             if s.auto is None and m["k"] == "overflow":
-                a = [ex.operand(x) for x in m["a"]]
+                a = [_resolve_initials(ex, ex.operand(x)) for x in m["a"]]
                 s.info = "%s(%s)" % (m["op"], ", ".join(show(x) for x in a))
                 ty = None
                 # operand type from the first operand
@@ -312,6 +351,7 @@ def sites_of(f, exact, prefix):
 def inventory(prog, cg, entries, exact=None, prefix=None, ctx=False):
     if exact is None:
         exact, prefix = load_api()
+    _PROG_FOR_PROMOTED[0] = prog
     if ctx:
         seeds = []
         for e in entries:
